@@ -163,7 +163,10 @@ def in_bounds_events(I, it):
         elif e[0] == 'oob?' and isinstance(e[3], PtrV) and e[3].obj == 'IN':
             inst, p, n, size = e[1], e[3], e[4], e[5]
             env = e[6] if len(e) > 6 else st.find_model([p.off + n - size, p.off], lambda v: v[0] > 0 or v[1] < 0)
-            if env is not None:
+            # a witness is only trusted when the iteration is guarded by the cursor itself (cursor < size known);
+            # loops driven by a separate counter need arithmetic between counter and cursor that widening dropped
+            guarded = st.is_ge0(Lin.atom('n') - Lin.atom('cur') - 1) is True
+            if env is not None and guarded:
                 viol.append((inst, 'read of %r bytes at input offset %r may lie outside the %r bytes given' % (n, p.off, size), env))
             else:
                 und.append((inst, 'bounds of input read at offset %r not decided' % (p.off,)))
